@@ -23,7 +23,7 @@ import (
 func TestMain(m *testing.M) {
 	// a clip call takes microseconds; a case that needs 10 s is a hang (the
 	// corner ping-pong of finding clip-line-corner-hang looked like that)
-	stats.SetLimits(10*time.Second, 3<<30)
+	stats.SetLimits(40*time.Second, 3<<30) // the top rungs of the size ladder cost up to ~10 s of process CPU
 	stats.Main(m, "C07")
 }
 
@@ -237,6 +237,7 @@ func finishCase(t *rapid.T, box orb.Bound, open bool, p ptGen, name string, snap
 	if !snap {
 		c = signedZeros(t, c)
 	}
+	c = aliasLines(t, c)
 	// exact change of length scale: multiply everything by 2^k (the exact model scales with it;
 	// a tolerance with an absolute unit would become vacuous or false at the far ends)
 	if rapid.IntRange(0, 3).Draw(t, "rescale") == 0 {
@@ -248,9 +249,52 @@ func finishCase(t *rapid.T, box orb.Bound, open bool, p ptGen, name string, snap
 				c.Lines[i][j] = sc(c.Lines[i][j])
 			}
 		}
+		if c.Alias != nil {
+			for j := range c.Alias.Backing {
+				c.Alias.Backing[j] = sc(c.Alias.Backing[j])
+			}
+		}
 		stats.Class("rescaled by 2^k, k in -60..60")
 	}
 	return c, name
+}
+
+// aliasLines (one case in six): replace the lines of the case by windows of ONE backing array - the
+// same slice twice, equal start with different lengths, overlapping windows, a prefix of the whole.
+func aliasLines(t *rapid.T, c Case) Case {
+	if rapid.IntRange(0, 5).Draw(t, "alias") != 0 {
+		return c
+	}
+	var backing []gen.P
+	for _, l := range c.Lines {
+		backing = append(backing, l...)
+	}
+	if len(backing) < 2 {
+		return c
+	}
+	n := rapid.IntRange(2, 4).Draw(t, "windows")
+	a := &Alias{Backing: backing}
+	c.Lines = nil
+	for i := 0; i < n; i++ {
+		var s, l int
+		switch k := rapid.IntRange(0, 3).Draw(t, "wk"); {
+		case k == 0 && i > 0: // the same slice again
+			s, l = a.Win[i-1][0], a.Win[i-1][1]
+		case k == 1 && i > 0: // same start, another length
+			s = a.Win[i-1][0]
+			l = rapid.IntRange(0, len(backing)-s).Draw(t, "len")
+		case k == 2: // a prefix of the whole array
+			s, l = 0, rapid.IntRange(1, len(backing)).Draw(t, "len")
+		default:
+			s = rapid.IntRange(0, len(backing)-1).Draw(t, "start")
+			l = rapid.IntRange(0, len(backing)-s).Draw(t, "len")
+		}
+		a.Win = append(a.Win, [2]int{s, l})
+		c.Lines = append(c.Lines, append([]gen.P{}, backing[s:s+l]...))
+	}
+	c.Alias = a
+	stats.Class("lines of the MultiLineString alias each other")
+	return c
 }
 
 // snapNearAxis makes segments that are within 1e-5 rad of an axis direction
@@ -506,7 +550,7 @@ func concurrentGroup(cs []Case, rounds int) (refs [][]orb.Geometry, f func(i int
 
 func TestPropConcurrent(t *testing.T) {
 	assumptions()
-	stats.Check(t, 1600, 50000, func(rt *rapid.T) {
+	stats.Check(t, 1200, 50000, func(rt *rapid.T) {
 		n := rapid.IntRange(2, 8).Draw(rt, "goroutines")
 		cs := make([]Case, n)
 		nt := 0
@@ -811,6 +855,17 @@ func TestReplay(t *testing.T) {
 	_, raw, ok := stats.Replaying()
 	if !ok {
 		t.Skip("no replay file")
+	}
+	if name, _, _ := stats.Replaying(); name == "TestEnumLarge" {
+		var c LargeCase
+		if err := json.Unmarshal(raw, &c); err != nil {
+			t.Fatal(err)
+		}
+		if err := stats.Guard(func() error { return checkLarge(c) }); err != nil {
+			t.Fatalf("replayed large case still fails: %v", err)
+		}
+		fmt.Println("replayed large case passes")
+		return
 	}
 	if name, _, _ := stats.Replaying(); name == "TestPropConcurrentOptions" {
 		var cs []Case
